@@ -3,7 +3,6 @@ package hydraidego
 import (
 	"errors"
 	"reflect"
-	"strings"
 	"time"
 
 	"github.com/hydraide/hydraide/sdk/go/hydraidego/v3/hydraidepbgo"
@@ -80,8 +79,15 @@ func convertCatalogModelToKeyValuePair(model any, encoding EncodingFormat) (*hyd
 
 		field := t.Field(i)
 
+		// Reserved tags are recognised by the exact tag head (the text before the
+		// first comma) – the same rule inspectCatalogModel uses – so a body field
+		// whose name merely contains a reserved word (`keywords`, `values`,
+		// `createdAtUtc`) is never mistaken for the key, the value or metadata.
+		rawTag, tagged := field.Tag.Lookup(tagHydrAIDE)
+		head, tagOmit := parseHydraideTag(rawTag)
+
 		// Check if the current field is marked as the `key` field (via `hydraide:"key"` tag)
-		if key, ok := field.Tag.Lookup(tagHydrAIDE); ok && key == tagKey {
+		if tagged && head == tagKey {
 
 			value := v.Field(i)
 
@@ -100,7 +106,7 @@ func convertCatalogModelToKeyValuePair(model any, encoding EncodingFormat) (*hyd
 		// Check if the current field is tagged as the `value` field (via `hydraide:"value"`)
 		// This field holds the actual value of the Treasure.
 		// We detect its type using reflection and populate the corresponding proto field in KeyValuePair.
-		if key, ok := field.Tag.Lookup(tagHydrAIDE); ok && strings.Contains(key, tagValue) {
+		if tagged && head == tagValue {
 
 			value := v.Field(i)
 			isEmpty := isFieldEmpty(value)
@@ -110,7 +116,7 @@ func convertCatalogModelToKeyValuePair(model any, encoding EncodingFormat) (*hyd
 				valueVoid := true
 				kvPair.VoidVal = &valueVoid
 			}
-			if strings.Contains(key, tagOmitempty) && isEmpty {
+			if tagOmit && isEmpty {
 				// If omitempty is set and the field is empty, skip setting the value
 				continue
 			}
@@ -129,10 +135,10 @@ func convertCatalogModelToKeyValuePair(model any, encoding EncodingFormat) (*hyd
 		// - If omitempty is set, zero values are skipped without error
 		// - Otherwise must be non-zero
 		// - Automatically converted to a `timestamppb.Timestamp` for protobuf
-		if key, ok := field.Tag.Lookup(tagHydrAIDE); ok && strings.Contains(key, tagExpireAt) {
+		if tagged && head == tagExpireAt {
 
 			value := v.Field(i)
-			hasOmitempty := strings.Contains(key, tagOmitempty)
+			hasOmitempty := tagOmit
 
 			if hasOmitempty && isFieldEmpty(value) {
 				// If omitempty is set and the field is empty, skip setting expireAt
@@ -161,11 +167,11 @@ func convertCatalogModelToKeyValuePair(model any, encoding EncodingFormat) (*hyd
 		// Optional metadata indicating who or what created the Treasure.
 		// - Must be of type `string`
 		// - Empty values are ignored
-		if key, ok := field.Tag.Lookup(tagHydrAIDE); ok && strings.Contains(key, tagCreatedBy) {
+		if tagged && head == tagCreatedBy {
 
 			value := v.Field(i)
 
-			if strings.Contains(key, tagOmitempty) && isFieldEmpty(value) {
+			if tagOmit && isFieldEmpty(value) {
 				// If omitempty is set and the field is empty, skip setting createdBy
 				continue
 			}
@@ -188,10 +194,10 @@ func convertCatalogModelToKeyValuePair(model any, encoding EncodingFormat) (*hyd
 		// - If omitempty is set, zero values are skipped without error
 		// - Otherwise must be non-zero
 		// - Converted to protobuf-compatible timestamp
-		if key, ok := field.Tag.Lookup(tagHydrAIDE); ok && strings.Contains(key, tagCreatedAt) {
+		if tagged && head == tagCreatedAt {
 
 			value := v.Field(i)
-			hasOmitempty := strings.Contains(key, tagOmitempty)
+			hasOmitempty := tagOmit
 
 			if hasOmitempty && isFieldEmpty(value) {
 				continue
@@ -219,10 +225,10 @@ func convertCatalogModelToKeyValuePair(model any, encoding EncodingFormat) (*hyd
 		// - Must be of type `string`
 		// - If omitempty is set, empty values are skipped
 		// - Otherwise empty values are still allowed but not set
-		if key, ok := field.Tag.Lookup(tagHydrAIDE); ok && strings.Contains(key, tagUpdatedBy) {
+		if tagged && head == tagUpdatedBy {
 
 			value := v.Field(i)
-			hasOmitempty := strings.Contains(key, tagOmitempty)
+			hasOmitempty := tagOmit
 
 			if hasOmitempty && isFieldEmpty(value) {
 				// If omitempty is set and the field is empty, skip setting updatedBy
@@ -247,10 +253,10 @@ func convertCatalogModelToKeyValuePair(model any, encoding EncodingFormat) (*hyd
 		// - If omitempty is set, zero values are skipped without error
 		// - Otherwise must be non-zero
 		// - Automatically converted to a `timestamppb.Timestamp` for protobuf transmission
-		if key, ok := field.Tag.Lookup(tagHydrAIDE); ok && strings.Contains(key, tagUpdatedAt) {
+		if tagged && head == tagUpdatedAt {
 
 			value := v.Field(i)
-			hasOmitempty := strings.Contains(key, tagOmitempty)
+			hasOmitempty := tagOmit
 
 			if hasOmitempty && isFieldEmpty(value) {
 				// If omitempty is set and the field is empty, skip setting updatedAt
@@ -333,12 +339,16 @@ func convertProtoTreasureToCatalogModel(treasure *hydraidepbgo.Treasure, model a
 
 	for i := 0; i < t.NumField(); i++ {
 
-		if key, ok := t.Field(i).Tag.Lookup(tagHydrAIDE); ok && strings.Contains(key, tagKey) {
+		// Same exact-head rule as the encoder and inspectCatalogModel.
+		rawTag, tagged := t.Field(i).Tag.Lookup(tagHydrAIDE)
+		head, _ := parseHydraideTag(rawTag)
+
+		if tagged && head == tagKey {
 			v.Elem().Field(i).SetString(treasure.GetKey())
 			continue
 		}
 
-		if key, ok := t.Field(i).Tag.Lookup(tagHydrAIDE); ok && strings.Contains(key, tagValue) {
+		if tagged && head == tagValue {
 
 			field := v.Elem().Field(i)
 
@@ -351,35 +361,35 @@ func convertProtoTreasureToCatalogModel(treasure *hydraidepbgo.Treasure, model a
 
 		}
 
-		if key, ok := t.Field(i).Tag.Lookup(tagHydrAIDE); ok && strings.Contains(key, tagExpireAt) {
+		if tagged && head == tagExpireAt {
 			if treasure.ExpiredAt != nil {
 				v.Elem().Field(i).Set(reflect.ValueOf(treasure.ExpiredAt.AsTime()))
 			}
 			continue
 		}
 
-		if key, ok := t.Field(i).Tag.Lookup(tagHydrAIDE); ok && strings.Contains(key, tagCreatedBy) {
+		if tagged && head == tagCreatedBy {
 			if treasure.CreatedBy != nil {
 				v.Elem().Field(i).SetString(*treasure.CreatedBy)
 			}
 			continue
 		}
 
-		if key, ok := t.Field(i).Tag.Lookup(tagHydrAIDE); ok && strings.Contains(key, tagCreatedAt) {
+		if tagged && head == tagCreatedAt {
 			if treasure.CreatedAt != nil {
 				v.Elem().Field(i).Set(reflect.ValueOf(treasure.CreatedAt.AsTime()))
 			}
 			continue
 		}
 
-		if key, ok := t.Field(i).Tag.Lookup(tagHydrAIDE); ok && strings.Contains(key, tagUpdatedBy) {
+		if tagged && head == tagUpdatedBy {
 			if treasure.UpdatedBy != nil {
 				v.Elem().Field(i).SetString(*treasure.UpdatedBy)
 			}
 			continue
 		}
 
-		if key, ok := t.Field(i).Tag.Lookup(tagHydrAIDE); ok && strings.Contains(key, tagUpdatedAt) {
+		if tagged && head == tagUpdatedAt {
 			if treasure.UpdatedAt != nil {
 				v.Elem().Field(i).Set(reflect.ValueOf(treasure.UpdatedAt.AsTime()))
 			}
